@@ -261,7 +261,7 @@ def run(tier: str) -> int:
     for name, src, expect in progs:
         for vi, vec in enumerate(VECS if (tier == "thorough" or name.startswith(("names:", "fixed:"))) else VECS[:2]):
             items.append(dict(name=f"{name}@{vi}", sources=src, opts=vec, tier=tier, expect=expect))
-    results = harness.pmap(task, items)
+    results = harness.pmap(task, items, placeholder=lambda it, st, d: dict(name=it["name"], status=st, detail=d, problems=[], labels=0, jumps=0))
     nontrivial = 0
     labels = jumps = 0
     for spec, r in zip(items, results):
@@ -290,7 +290,7 @@ def run(tier: str) -> int:
             rep.violation(f"{spec['name']} {spec['opts']}: {pr['kind']}: {str(pr['detail'])[:200]}", path)
     # ---- E3: identifier dimension, solver-quantified within the length bound
     shapes = [(1, 1), (1, 2), (2, 1), (2, 2), (1, 3), (3, 1), (2, 3), (3, 2)] + ([(3, 3), (1, 4), (4, 1), (2, 4), (4, 2)] if tier == "thorough" else [])
-    e3res = harness.pmap(e3_task, shapes)
+    e3res = harness.pmap(e3_task, shapes, placeholder=lambda it, st, d: dict(shape=it, paths=0, problems=[], status="inconclusive", detail=f"{st}: {d}", queries=0))
     e3paths = 0
     for r in e3res:
         e3paths += r["paths"]
